@@ -20,6 +20,11 @@ def _grid2d(family):
     return st.fixed_dictionaries({
         "cls": st.just("Grid2D"), "origin": S.pt3, "nu": st.integers(1, 8), "nv": st.integers(1, 6),
         "du": size, "dv": size, "rot": rot, "dip": dip, "data": S.data_sets(["CELL"]),
+        # family B: the final rotation / dip are assigned through the setters of a grid created with these ones, after
+        # its cell centres were computed once (a selection must follow the current geometry, not a cached one)
+        "regeom": st.none() if exact else st.one_of(st.none(), st.none(), st.fixed_dictionaries({
+            "rot": st.sampled_from([0.0, 30.0, 90.0, -45.0]), "dip": st.sampled_from([0.0, 30.0, 90.0, 55.0]),
+            "order": st.integers(0, 1)})),
     })
 
 
@@ -493,6 +498,8 @@ class C13(Check):
                         res.label("grid2d:dipped")
                     if spec["du"] < 0 or spec["dv"] < 0:
                         res.label("grid2d:negative-size")
+                    if spec.get("regeom"):
+                        res.label("grid2d:geometry-assigned-after-first-use")
                 if m.cells is not None and len({v for cell in m.cells for v in cell}) < len(m.coords):
                     res.label("cells:unreferenced-vertices")
                 for _n, kind, _a, _e in m.data:
@@ -600,6 +607,8 @@ class C13(Check):
                         for j in range(len(spec[key])):
                             new = dict(spec, **{key: spec[key][:j] + spec[key][j + 1:]})
                             yield {**program, "objs": objs[:k] + [new] + objs[k + 1:]}
+            if spec.get("regeom"):
+                yield {**program, "objs": objs[:k] + [dict(spec, regeom=None)] + objs[k + 1:]}
             for key in ("nu", "nv"):
                 if key in spec and spec["cls"] == "Grid2D" and spec[key] > 1:
                     yield {**program, "objs": objs[:k] + [dict(spec, **{key: spec[key] - 1})] + objs[k + 1:]}
